@@ -55,7 +55,32 @@ func (x *Ex) genTables() string {
 	x.tableVar(f, "internal/domutil", "allowedAttributes", "allowedAttributes")
 	x.tableVar(f, "internal/domutil", "elementWithSizeAttr", "elementWithSizeAttr")
 	x.caseTable(f, "internal/domutil", "", "StripAttributes", "attr.Key", 0, "stripCases")
-	x.caseTable(f, "internal/domutil", "", "GetDisplayStyle", "dom.TagName(node)", 0, "displayCases")
+	if cs := x.caseTable(f, "internal/domutil", "", "GetDisplayStyle", "dom.TagName(node)", 0, "displayCases"); cs != nil {
+		// the same switch with the returned literal parsed out: (tags, display value)
+		var items []string
+		ok := true
+		for _, c := range cs {
+			lit := ""
+			if len(c.body) == 1 {
+				if r, isRet := c.body[0].(*ast.ReturnStmt); isRet && len(r.Results) == 1 {
+					if v, isStr := unquote(r.Results[0]); isStr {
+						lit = v
+					}
+				}
+			}
+			if lit == "" {
+				ok = false
+			}
+			items = append(items, "("+leanStrList(c.labels)+", "+leanStr(lit)+")")
+		}
+		if !ok {
+			x.fail("GetDisplayStyle: a clause does not return a string literal")
+			items = nil
+		}
+		f.def("internal/domutil.GetDisplayStyle: (tags, returned display value)", "def displayTable : List (List String × String) :=\n  ["+strings.Join(items, ",\n   ")+"]")
+	} else {
+		f.def("internal/domutil.GetDisplayStyle (FAILED)", "def displayTable : List (List String × String) := []")
+	}
 	x.caseTable(f, "internal/domutil", "", "MakeAllSrcAttributesAbsolute", "dom.TagName(root)", 0, "srcTagCases")
 
 	// --- webdoc
